@@ -13,6 +13,8 @@ from .. import common as C
 
 PROPS = ["theories/Props/C18.v"]
 NPROC = 16
+# M1 of the exchange recorded from Telegram (telegram/internal/srp/2fa_test.go)
+RECORDED_M1 = "999df906bda2c6cbb52f503406eba2d0d0503ace0cc302c38f13ee5010ad4051"
 
 
 def split_cases(path, n):
@@ -144,6 +146,14 @@ def run(ctx):
             inputs = ["r", pw, srpB, flag, s1, s2, g, P, random]
             key = "client:" + digest(inputs)
             base = {"kind": "r", "inputs": inputs, "tags": tag, "password": show_pw(pw)}
+            if tag.startswith("recorded vector"):
+                if mM1 != RECORDED_M1:
+                    internal("the model does not reproduce the M1 recorded from Telegram")
+                if iM1 != RECORDED_M1:
+                    C.violation(ctx, key, "getInputCheckPassword does not reproduce the M1 recorded from Telegram",
+                                dict(base, expected={"class": "ok", "A": mA, "M1": RECORDED_M1}, got={"class": icls, "A": iA, "M1": iM1},
+                                     oracle="recorded exchange"))
+                    continue
             if icls != expect:
                 C.violation(ctx, key, "getInputCheckPassword on '%s': class %s, the property requires %s" % (tag, icls, expect),
                             dict(base, expected={"class": expect, "A": mA, "M1": mM1}, got={"class": icls, "A": iA, "M1": iM1},
